@@ -24,8 +24,9 @@ def gen_replay(run, module, cfg, test, name, env=None, workers=12, heap="8g", si
     if summary is None:
         raise core.Inconclusive("driver %s did not finish" % test)
     if isinstance(summary.get("violations"), int) and summary["violations"] > len(viol):
-        # the driver stops writing violation records at VERIF_VCAP: records behind the cap cannot be told from known findings
-        raise core.Inconclusive("driver %s reported %d violations but wrote %d records (cap): raise VERIF_VCAP for this check" % (test, summary["violations"], len(viol)))
+        # the driver stops writing violation records at VERIF_VCAP: if every written record turns out to be a known finding, what
+        # hid behind the cap cannot be told (decided in Run.finish)
+        run.truncated = (summary["violations"], len(viol))
     if confirm_case is not None:
         viol = run.confirm(run._binary, test, env or {}, viol, name, case_of=confirm_case)
     for v in viol:
